@@ -18,6 +18,7 @@ the tree under test and emits
 Anything that raises where a value is expected is emitted as None (the theorems then
 fail), anything structural that is missing raises Refuse (tie broken).
 """
+import ast
 import importlib
 import os
 import sys
@@ -83,43 +84,99 @@ def safe(f, *a, **kw):
         return ('exc', type(e).__name__)
 
 
-def server_candidates(CS, settings, version, cred):
-    """tlsconnection.py _serverGetClientHello: 'Now that the version is known, limit to only the
-    ciphers available to that version and client capabilities' (all group intersections non-empty)."""
+# how tlsconnection.py composes the candidate lists: read from the ast, then executed here
+def _composition(fname):
+    """[(path, getter, n_args)] for every `cipherSuites += CipherSuite.getX(...)` of TLSConnection.<fname>, where
+    path = the enclosing if-conditions (ast nodes, negated flag); plus the final filterForVersion flag"""
+    path = os.path.join(REPO, 'tlslite', 'tlsconnection.py')
+    with open(path) as f:
+        tree = ast.parse(f.read())
+    cls = [n for n in tree.body if isinstance(n, ast.ClassDef) and n.name == 'TLSConnection']
+    fd = [n for n in (cls[0].body if cls else []) if isinstance(n, ast.FunctionDef) and n.name == fname]
+    if len(fd) != 1:
+        raise Refuse('TLSConnection.%s not found' % fname)
+    steps, assigns = [], []
+
+    def walk(stmts, conds):
+        for st in stmts:
+            if isinstance(st, ast.AugAssign) and isinstance(st.target, ast.Name) and st.target.id == 'cipherSuites':
+                v = st.value
+                if not (isinstance(st.op, ast.Add) and isinstance(v, ast.Call) and isinstance(v.func, ast.Attribute)
+                        and isinstance(v.func.value, ast.Name) and v.func.value.id == 'CipherSuite'
+                        and v.func.attr.startswith('get') and not v.keywords
+                        and [ast.unparse(a) for a in v.args] in (['settings'], ['settings', 'version'])):
+                    raise Refuse('%s: unexpected update of cipherSuites at line %d' % (fname, st.lineno))
+                steps.append((conds, v.func.attr, len(v.args)))
+            elif isinstance(st, ast.Assign) and any(isinstance(t, ast.Name) and t.id == 'cipherSuites' for t in st.targets):
+                assigns.append((conds, ast.unparse(st.value)))
+            if isinstance(st, ast.If):
+                walk(st.body, conds + ((st.test, False),))
+                walk(st.orelse, conds + ((st.test, True),))
+            elif isinstance(st, (ast.For, ast.While, ast.With, ast.Try)):
+                for fld in ('body', 'orelse', 'finalbody'):
+                    walk(getattr(st, fld, None) or [], conds)
+                for h in getattr(st, 'handlers', []):
+                    walk(h.body, conds)
+    walk(fd[0].body, ())
+    return steps, assigns
+
+
+def _truth(e, env):
+    if isinstance(e, ast.BoolOp):
+        vals = [_truth(v, env) for v in e.values]
+        return any(vals) if isinstance(e.op, ast.Or) else all(vals)
+    if isinstance(e, ast.UnaryOp) and isinstance(e.op, ast.Not):
+        return not _truth(e.operand, env)
+    k = ast.unparse(e)
+    if isinstance(e, (ast.Name, ast.Attribute)) and k in env:
+        return env[k]
+    raise Refuse('candidate-list condition %r is not one of the known scenario flags' % k)
+
+
+def _run_composition(CS, steps, env, settings, version):
     out = []
-    if cred in ('srp', 'srp+cert'):
-        if cred == 'srp+cert':
-            out += CS.getSrpCertSuites(settings, version)
-        out += CS.getSrpSuites(settings, version)
-    elif cred == 'cert':
-        out += CS.getTLS13Suites(settings, version)
-        out += CS.getEcdsaSuites(settings, version)
-        out += CS.getEcdheCertSuites(settings, version)
-        out += CS.getDheCertSuites(settings, version)
-        out += CS.getDheDsaSuites(settings, version)
-        out += CS.getCertSuites(settings, version)
-    elif cred == 'anon':
-        out += CS.getAnonSuites(settings, version)
-        out += CS.getEcdhAnonSuites(settings, version)
+    for conds, getter, nargs in steps:
+        if all(_truth(c, env) != neg for c, neg in conds):
+            f = getattr(CS, getter, None)
+            if not callable(f):
+                raise Refuse('CipherSuite.%s missing' % getter)
+            out += f(settings, version) if nargs == 2 else f(settings)
+    return out
+
+
+SERVER_ENVS = {
+    'srp': dict(verifierDB=True, cert_chain=False, anon=False),
+    'srp+cert': dict(verifierDB=True, cert_chain=True, anon=False),
+    'cert': dict(verifierDB=False, cert_chain=True, anon=False),
+    'anon': dict(verifierDB=False, cert_chain=False, anon=True),
+    'psk': dict(verifierDB=False, cert_chain=False, anon=False),
+}
+CLIENT_ENVS = {
+    'srp': dict(srpParams=True, certParams=False, anonParams=False),
+    'cert': dict(srpParams=False, certParams=True, anonParams=False),
+    'anon': dict(srpParams=False, certParams=False, anonParams=True),
+}
+
+
+def server_candidates(CS, settings, version, cred, comp):
+    """_serverGetClientHello: the suites a server with these credentials may select at `version`
+    (client offers everything, all group intersections non-empty)"""
+    steps, assigns = comp
+    expect = [((), '[]'), ((), 'CipherSuite.filterForVersion(cipherSuites, minVersion=version, maxVersion=version)')]
+    if [(tuple(c), v) for c, v in assigns] != expect:
+        raise Refuse('_serverGetClientHello assigns cipherSuites in an unexpected way: %r' % [v for _, v in assigns])
+    env = dict(SERVER_ENVS[cred])
+    env.update({'ecGroupIntersect': True, 'ffGroupIntersect': True, 'settings.pskConfigs': cred == 'psk'})
+    out = _run_composition(CS, steps, env, settings, version)
     return CS.filterForVersion(out, minVersion=version, maxVersion=version)
 
 
-def client_offer(CS, settings, kind):
-    """tlsconnection.py _clientSendClientHello (version=None: settings.maxVersion)"""
-    out = []
-    if kind == 'srp':
-        out += CS.getSrpAllSuites(settings)
-    elif kind == 'cert':
-        out += CS.getTLS13Suites(settings)
-        out += CS.getEcdsaSuites(settings)
-        out += CS.getEcdheCertSuites(settings)
-        out += CS.getDheCertSuites(settings)
-        out += CS.getCertSuites(settings)
-        out += CS.getDheDsaSuites(settings)
-    elif kind == 'anon':
-        out += CS.getEcdhAnonSuites(settings)
-        out += CS.getAnonSuites(settings)
-    return out
+def client_offer(CS, settings, kind, comp):
+    """_clientSendClientHello (the getters are called without a version: settings.maxVersion)"""
+    steps, assigns = comp
+    if [(tuple(c), v) for c, v in assigns] != [((), '[CipherSuite.TLS_EMPTY_RENEGOTIATION_INFO_SCSV]')]:
+        raise Refuse('_clientSendClientHello assigns cipherSuites in an unexpected way: %r' % [v for _, v in assigns])
+    return _run_composition(CS, steps, dict(CLIENT_ENVS[kind]), settings, None)
 
 
 def collect():
@@ -199,15 +256,16 @@ def collect():
         rows[sid] = r
     d['rows'] = rows
     perm = permissive(hs)
-    d['srv'] = {cred: [sorted(set(server_candidates(CS, perm, v, cred))) for v in VERSIONS]
-                for cred in ('srp', 'srp+cert', 'cert', 'anon')}
+    scomp, ccomp = _composition('_serverGetClientHello'), _composition('_clientSendClientHello')
+    d['srv'] = {cred: [sorted(set(server_candidates(CS, perm, v, cred, scomp))) for v in VERSIONS]
+                for cred in sorted(SERVER_ENVS)}
     # a client with maxVersion=mv accepts suite s in a ServerHello of version v iff s is in
     # filterForVersion(offer, v, v)
     d['cli'] = {}
     for kind in ('srp', 'cert', 'anon'):
         per_max = []
         for mv in VERSIONS:
-            offer = client_offer(CS, permissive(hs, maxVersion=mv), kind)
+            offer = client_offer(CS, permissive(hs, maxVersion=mv), kind, ccomp)
             per_max.append([sorted(set(CS.filterForVersion(offer, v, v))) if v <= mv else [] for v in VERSIONS])
         d['cli'][kind] = per_max
     # single-word settings
@@ -219,6 +277,96 @@ def collect():
                   for k in hs.KEY_EXCHANGE_NAMES}
     d['by_kx']['<none>'] = [sorted(set(CS._filterSuites(d['all'], permissive(hs, keyExchangeNames=[]), v))) for v in VERSIONS]
     return d
+
+
+# ------------------------------------------------------------------------------------------
+# key-exchange dispatch of tlsconnection.py: extracted from the ast (fail closed)
+def _membership(test, var):
+    """Gallina for a test built from `<var> in/not in CipherSuite.X`, and/or/not; list names used"""
+    if isinstance(test, ast.Compare) and len(test.ops) == 1 and isinstance(test.ops[0], (ast.In, ast.NotIn)):
+        l, c = test.left, test.comparators[0]
+        if (isinstance(l, ast.Name) and l.id == var and isinstance(c, ast.Attribute)
+                and isinstance(c.value, ast.Name) and c.value.id == 'CipherSuite'):
+            g = '(existsb (Z.eqb s) L_%s)' % c.attr
+            return ('(negb %s)' % g if isinstance(test.ops[0], ast.NotIn) else g), [c.attr]
+    if isinstance(test, ast.BoolOp):
+        parts = [_membership(v, var) for v in test.values]
+        op = ' || ' if isinstance(test.op, ast.Or) else ' && '
+        return '(' + op.join(p[0] for p in parts) + ')', sum((p[1] for p in parts), [])
+    if isinstance(test, ast.UnaryOp) and isinstance(test.op, ast.Not):
+        g, n = _membership(test.operand, var)
+        return '(negb %s)' % g, n
+    raise Refuse('dispatch test outside the accepted form at line %d' % test.lineno)
+
+
+def _is_membership_if(n, var):
+    try:
+        return isinstance(n, ast.If) and bool(_membership(n.test, var))
+    except Refuse:
+        return False
+
+
+def _leaf(body, var):
+    """what a branch does: nested dispatch | keyExchange = Class(...) | for ... in self._method(...) | assert False"""
+    for st in body:
+        if _is_membership_if(st, var):
+            return _chain(st, var)
+        if isinstance(st, ast.Assign) and len(st.targets) == 1 and isinstance(st.targets[0], ast.Name) \
+                and st.targets[0].id == 'keyExchange' and isinstance(st.value, ast.Call) \
+                and isinstance(st.value.func, ast.Name):
+            return sl(st.value.func.id), []
+        if isinstance(st, ast.For) and isinstance(st.iter, ast.Call) and isinstance(st.iter.func, ast.Attribute) \
+                and isinstance(st.iter.func.value, ast.Name) and st.iter.func.value.id == 'self' \
+                and st.iter.func.attr != '_sendError':
+            return sl(st.iter.func.attr), []
+        if isinstance(st, ast.Assert) or (isinstance(st, ast.Expr) and isinstance(st.value, ast.Call)
+                                          and isinstance(st.value.func, ast.Name) and st.value.func.id == 'assert'):
+            return sl('ASSERT'), []
+        if isinstance(st, (ast.Assign, ast.Try, ast.Expr)):
+            continue
+        raise Refuse('dispatch branch with unexpected statement %s at line %d' % (type(st).__name__, st.lineno))
+    raise Refuse('dispatch branch without a recognisable action')
+
+
+def _chain(node, var):
+    g, names = _membership(node.test, var)
+    a, n1 = _leaf(node.body, var)
+    if len(node.orelse) == 1 and _is_membership_if(node.orelse[0], var):
+        b, n2 = _chain(node.orelse[0], var)
+    elif node.orelse:
+        b, n2 = _leaf(node.orelse, var)
+    else:
+        raise Refuse('dispatch chain without else at line %d' % node.lineno)
+    return '(if %s then %s else %s)' % (g, a, b), names + n1 + n2
+
+
+def dispatch_chains(known_lists):
+    path = os.path.join(REPO, 'tlslite', 'tlsconnection.py')
+    with open(path) as f:
+        tree = ast.parse(f.read())
+    cls = [n for n in tree.body if isinstance(n, ast.ClassDef) and n.name == 'TLSConnection']
+    if not cls:
+        raise Refuse('class TLSConnection not found')
+    out = []
+    for fname, gname in (('_handshakeClientAsyncHelper', 'gen_cli_dispatch'), ('_handshakeServerAsyncHelper', 'gen_srv_dispatch')):
+        fd = [n for n in cls[0].body if isinstance(n, ast.FunctionDef) and n.name == fname]
+        if len(fd) != 1:
+            raise Refuse('TLSConnection.%s not found' % fname)
+        heads = []
+        for n in ast.walk(fd[0]):
+            if isinstance(n, ast.If) and isinstance(n.test, ast.Compare) and isinstance(n.test.left, ast.Name) \
+                    and n.test.left.id == 'cipherSuite' and isinstance(n.test.comparators[0], ast.Attribute) \
+                    and n.test.comparators[0].attr == 'srpAllSuites' and isinstance(n.test.ops[0], ast.In):
+                heads.append(n)
+        if len(heads) != 1:
+            raise Refuse('%s: expected one key-exchange dispatch chain starting at srpAllSuites, found %d' % (fname, len(heads)))
+        code, names = _chain(heads[0], 'cipherSuite')
+        for nm in names:
+            if nm not in known_lists:
+                raise Refuse('%s consults CipherSuite.%s which is not a known list' % (fname, nm))
+        out.append('(* tlslite/tlsconnection.py:%d %s: which key exchange runs for suite s *)' % (heads[0].lineno, fname))
+        out.append('Definition %s (s : Z) : string :=\n  %s.\n' % (gname, code))
+    return out
 
 
 class SuitesUnit(object):
@@ -284,6 +432,7 @@ class SuitesUnit(object):
         per_version('by_cipher_name', d['by_cipher'], '_filterSuites(all ids) with cipherNames=[word], per version')
         per_version('by_mac_name', d['by_mac'], '_filterSuites(all ids) with macNames=[word], per version')
         per_version('by_kx_name', d['by_kx'], '_filterSuites(all ids) with keyExchangeNames=[word], per version')
+        o += dispatch_chains(d['lists'])
         return '\n'.join(o)
 
 
